@@ -55,7 +55,8 @@ def expectedOf (ops : List Op) : List (Nat × Nat) × List (Nat × Nat) × List 
     | [] => (lines.reverse, kmsg.reverse, sil.reverse)
     | o :: r =>
       match o.kind with
-      | "log" => if en then go (i + 1) en r ((i, o.n) :: lines) kmsg sil else go (i + 1) en r lines kmsg (i :: sil)
+      -- `nest`/`nestout`: a statement whose operand logs a line of its own; two lines, the operand's first
+      | "log" | "nest" | "nestout" => if en then go (i + 1) en r ((i, o.n) :: lines) kmsg sil else go (i + 1) en r lines kmsg (i :: sil)
       | "raw" => go (i + 1) en r ((i, o.n) :: lines) kmsg sil
       | "dis" => go (i + 1) false r lines kmsg sil
       | "en" => go (i + 1) true r lines kmsg sil
@@ -73,7 +74,7 @@ def stepsOf (tid : Nat) (ops : List Op) : List Step :=
     | [] => acc.reverse
     | o :: r =>
       let st : List Step := match o.kind with
-        | "log" => [.stmt tid i [.text (o.n - 1)]]
+        | "log" | "nest" | "nestout" => [.stmt tid i [.text (o.n - 1)]]
         | "raw" => [.debugLog ⟨tid, i, o.n⟩]
         | "dis" => [.stmt tid i [.disable]]
         | "en" => [.stmt tid i [.enable]]
